@@ -30,16 +30,6 @@ structure JobRel (rj : RJob) (aj : AJob) : Prop where
   known : ∀ t, (alGet rj.tasks t).isSome = true → t ∈ aj.tasks.map (·.id)
   valid : submitsOk [] rj.submits = true
 
-structure Inv (R : Restorer) (A : AState) : Prop where
-  jobs : AlRel JobRel R.jobs A.jobs
-  queues : R.queues = A.queues
-  maxJob : R.maxJob = A.maxJob
-  maxWorker : R.maxWorker = A.maxWorker
-  maxQueue : R.maxQueue = A.maxQueue
-  uid : R.uid = A.uid
-
-theorem inv_init : Inv {} {} := ⟨.nil, rfl, rfl, rfl, rfl, rfl⟩
-
 theorem specTasks_ids (d : TaskDesc) : d.specTasks.map (·.id) = d.ids := by
   cases d <;> simp [TaskDesc.specTasks, TaskDesc.ids, List.map_map, Function.comp_def]
 
@@ -127,22 +117,6 @@ theorem JobRel.updTask {rj : RJob} {aj : AJob} (h : JobRel rj aj) (t : Nat) (f :
     · rename_i e; subst e; exact hmem
     · exact h.known t' ht'
 
-
-theorem Inv.getJob {R : Restorer} {A : AState} (h : Inv R A) {j : Nat} {aj : AJob} (ha : alGet A.jobs j = some aj) :
-    ∃ rj, alGet R.jobs j = some rj ∧ JobRel rj aj := by
-  rcases h.jobs.get j with ⟨_, h2⟩ | ⟨b, c, h1, h2, h3⟩
-  · rw [ha] at h2; cases h2
-  · rw [ha] at h2; cases h2; exact ⟨b, h1, h3⟩
-
-theorem Inv.getNone {R : Restorer} {A : AState} (h : Inv R A) {j : Nat} (ha : alGet A.jobs j = none) :
-    alGet R.jobs j = none := by
-  rcases h.jobs.get j with ⟨h1, _⟩ | ⟨b, c, _, h2, _⟩
-  · exact h1
-  · rw [ha] at h2; cases h2
-
-theorem Inv.setJob {R : Restorer} {A : AState} (h : Inv R A) (j : Nat) {rj : RJob} {aj : AJob} (hr : JobRel rj aj) :
-    Inv { R with jobs := alSet R.jobs j rj } { A with jobs := alSet A.jobs j aj } :=
-  ⟨h.jobs.set j hr, h.queues, h.maxJob, h.maxWorker, h.maxQueue, h.uid⟩
 
 /-- the job relation does not read crash counters (restorer) nor `run`/`crashes` (spec) -/
 theorem JobRel.congr {rj rj' : RJob} {aj : AJob} (h : JobRel rj aj) (g : RTask → RTask) (k : ATask → ATask)
